@@ -110,8 +110,8 @@ PROPS = {
                 rule='ALLOC scripts (trees of <=6 notes with deadlines none/past/future, <=3 counters, notifies); for each script EVERY allocation from note.c / counter.c call sites is failed in turn (exhaustive per script); evaluations counts executions (script x fault position); non-trivial = a script in which some constructor returned NULL while other objects existed; distinct = distinct scripts'),
     'C15': dict(num=15, sim=[('MON', 1)], quick=150000, thorough=3000000, flavours_thorough=['gcc_new', 'cpp11'],
                 rule='(simulated twin of C15) MON programs whose past deadlines include instants before the epoch, on the modelled kernel futex (EINVAL for tv_sec<0)'),
-    'C02': dict(num=2, sim=[(None, 1)], quick=400000, thorough=6000000, flavours_thorough=['gcc_new', 'c11', 'cpp11'],
-                rule='LOCK and MON programs x RANDOM/PCT/BYTES/FREEZE schedules x 3 semaphore flavours; non-trivial = some thread slept on its semaphore inside nsync_mu_lock/rlock and was woken by an unlocker (hand-off happened); distinct = distinct (program hash, realized trace hash)'),
+    'C02': dict(num=2, sim=[(None, 3), ('STARVE', 1)], quick=400000, thorough=6000000, flavours_thorough=['gcc_new', 'c11', 'cpp11'],
+                rule='LOCK and MON programs, and STARVE programs (one victim against bargers doing up to 200 lock/unlock rounds, then a fresh locker on the idle mutex), x RANDOM/PCT/BYTES/FREEZE/adversary schedules x 3 semaphore flavours; non-trivial = some thread slept on its semaphore inside nsync_mu_lock/rlock and was woken by an unlocker (hand-off happened); distinct = distinct (program hash, realized trace hash)'),
 }
 
 
